@@ -97,7 +97,20 @@ func runC07(c *Ctx) {
 				preserve, known bool
 				appended        bool
 			}
-			// per loop-body visit: find the assumption on the preserve flag and whether an append of header.Name follows
+			// base of a field load X.f as a dynamic value
+			baseOf := func(dv walk.DV) (walk.DV, bool) {
+				r := p.Resolve(dv)
+				u, ok := r.V.(*ssa.UnOp)
+				if !ok {
+					return walk.DV{}, false
+				}
+				fa, ok := u.X.(*ssa.FieldAddr)
+				if !ok {
+					return walk.DV{}, false
+				}
+				return p.Op(fa.X, p.Op(fa, r)), true
+			}
+			var appendedBases []walk.DV
 			for i, s := range p.Steps {
 				call, ok := s.In.(*ssa.Call)
 				if !ok {
@@ -113,30 +126,34 @@ func runC07(c *Ctx) {
 				}
 				appended++
 				key := "collect|" + fnKey(newStrip)
-				// the preserve flag of the same element must be assumed false before
+				nb, _ := baseOf(p.StepOp(el, s))
+				appendedBases = append(appendedBases, nb)
+				// the preserve flag of the same entry must be assumed false before
 				okGuard := false
 				for _, a := range p.Atoms(i) {
-					if !a.IsNil && !a.Val && a.DV.I == s.I && isFieldLoadOf(a.DV.V, preserveF) {
+					if a.IsNil || a.Val || !isFieldLoadOf(a.DV.V, preserveF) {
+						continue
+					}
+					if pb, ok := baseOf(a.DV); ok && p.Same(pb, nb) {
 						okGuard = true
 					}
 				}
 				if okGuard {
-					c.ok(rule, key, s.In, "Name collected under !PreserveRequestValue")
+					c.ok(rule, key, s.In, "Name collected under !PreserveRequestValue of the same entry")
 				} else {
 					c.bad(rule, key, s.In, "a header name is collected for stripping without the !PreserveRequestValue test on that entry", p, i)
 				}
 			}
-			// completeness: an iteration with preserve==false must contain the append
+			// completeness: every entry whose preserve flag was false is collected
 			for _, a := range p.Atoms(at) {
 				if a.IsNil || a.Val || !isFieldLoadOf(a.DV.V, preserveF) {
 					continue
 				}
+				pb, ok := baseOf(a.DV)
 				found := false
-				for _, s := range p.Steps {
-					if call, ok := s.In.(*ssa.Call); ok && s.I == a.DV.I {
-						if bi, ok := call.Call.Value.(*ssa.Builtin); ok && bi.Name() == "append" {
-							found = true
-						}
+				for _, nb := range appendedBases {
+					if ok && p.Same(pb, nb) {
+						found = true
 					}
 				}
 				key := "collect-complete|" + fnKey(newStrip)
